@@ -722,7 +722,7 @@ class HTTPConnectionPool(ConnectionPool, RequestMethods):
         if url.startswith("/"):
             url = to_str(_encode_target(url))
         else:
-            url = to_str(parsed_url.url)
+            url = to_str(parsed_url._replace(auth=None, fragment=None).url)
 
         conn = None
 
